@@ -119,4 +119,19 @@ def cdRead : Nat → Bytes → VAddr → Option StoredValue
         (cdReadEntries node (cdRead fuel node) (decTable (table.length + 1) table)).map .object
     else none
 
+/-- `add_field_value` for every (field, value) of a document, in order: `node_data` and the root
+table `field_values` (field ids are `u16` in the code: more than 65 535 fields panic) -/
+def cdAddDoc : Bytes → List (BitVec 32 × StoredValue) → Bytes × List (BitVec 32 × VAddr)
+  | node, [] => (node, [])
+  | node, (f, v) :: rest =>
+    let a := cdAdd node v
+    let r := cdAddDoc a.1 rest
+    (r.1, (f, a.2) :: r.2)
+
+/-- `field_values()` / `iter_fields_and_values` turned into owned values -/
+def cdReadDoc (fuel : Nat) (node : Bytes) : List (BitVec 32 × VAddr) → Option (List (BitVec 32 × StoredValue))
+  | [] => some []
+  | (f, a) :: rest =>
+    (cdRead fuel node a).bind fun v => (cdReadDoc fuel node rest).map fun d => (f, v) :: d
+
 end TantivyModel.Store
